@@ -63,9 +63,8 @@ pub struct FaRec {
     pub t: u64,
     pub frame: i32,
     pub fa: i32,
-    /// network_stats() of the first remote: ping (-1 = no numbers), local/remote frames behind
+    /// network_stats() of the first remote: ping (-1 = no numbers), remote frames behind
     pub ping: i64,
-    pub lfb: i32,
     pub rfb: i32,
 }
 
@@ -92,11 +91,10 @@ pub struct Oracles {
     pub c12_running: bool,
     /// advance_frame returns NotSynchronized exactly while the session is not Running
     pub c12_notsync: bool,
-    pub c18: bool,
 }
 impl Oracles {
     pub fn all_basic() -> Oracles {
-        Oracles { c01: true, c02: true, c02_saved: true, c03: true, c04: true, c06: true, c12_running: false, c12_notsync: false, c18: false }
+        Oracles { c01: true, c02: true, c02_saved: true, c03: true, c04: true, c06: true, c12_running: false, c12_notsync: false }
     }
 }
 
@@ -135,20 +133,6 @@ impl SizeMax {
             self.pending_checksums = self.pending_checksums.max(e.pending_checksums);
             self.sync_random_requests = self.sync_random_requests.max(e.sync_random_requests);
         }
-    }
-    pub fn merge(&mut self, o: &SizeMax) {
-        self.samples += o.samples;
-        self.event_queue = self.event_queue.max(o.event_queue);
-        self.pending_local_inputs = self.pending_local_inputs.max(o.pending_local_inputs);
-        self.outgoing_local_inputs = self.outgoing_local_inputs.max(o.outgoing_local_inputs);
-        self.local_checksum_history = self.local_checksum_history.max(o.local_checksum_history);
-        self.ep_send_queue_after_call = self.ep_send_queue_after_call.max(o.ep_send_queue_after_call);
-        self.ep_event_queue = self.ep_event_queue.max(o.ep_event_queue);
-        self.pending_output_remote = self.pending_output_remote.max(o.pending_output_remote);
-        self.pending_output_spectator = self.pending_output_spectator.max(o.pending_output_spectator);
-        self.recv_inputs = self.recv_inputs.max(o.recv_inputs);
-        self.pending_checksums = self.pending_checksums.max(o.pending_checksums);
-        self.sync_random_requests = self.sync_random_requests.max(o.sync_random_requests);
     }
 }
 
@@ -463,18 +447,6 @@ impl Core {
 }
 
 impl<P: Pred> World<P> {
-    pub fn p2p(&self, i: usize) -> &P2PSession<Cfg<P>> {
-        match &self.sess[i] {
-            Sess::P2P(x) => x,
-            _ => panic!("not a p2p node"),
-        }
-    }
-    pub fn p2p_mut(&mut self, i: usize) -> &mut P2PSession<Cfg<P>> {
-        match &mut self.sess[i] {
-            Sess::P2P(x) => x,
-            _ => panic!("not a p2p node"),
-        }
-    }
     fn snapshot(&mut self, ni: usize) {
         let f = &mut self.core.nodes[ni].fin;
         match &self.sess[ni] {
@@ -498,12 +470,6 @@ impl<P: Pred> World<P> {
                 f.undrained_events = f.sizes.event_queue;
             }
         }
-    }
-
-    /// Runs the world to completion (frame target + settle time, or the virtual time limit, or the
-    /// first violation found by an online oracle).
-    pub fn run(&mut self) {
-        self.run_with(&mut |_, _, _| {});
     }
 
     /// `hook(world, node index, time)` is called before every tick (for injections etc.).
@@ -680,7 +646,7 @@ impl<P: Pred> World<P> {
                     if core.log_fa {
                         let rh = sess.remote_player_handles().into_iter().min();
                         let st = rh.and_then(|h| sess.network_stats(h).ok());
-                        core.nodes[ni].fa_log.push(FaRec { t, frame: snap.0, fa: snap.3, ping: st.map(|s| s.ping as i64).unwrap_or(-1), lfb: st.map(|s| s.local_frames_behind).unwrap_or(0), rfb: st.map(|s| s.remote_frames_behind).unwrap_or(0) });
+                        core.nodes[ni].fa_log.push(FaRec { t, frame: snap.0, fa: snap.3, ping: st.map(|s| s.ping as i64).unwrap_or(-1), rfb: st.map(|s| s.remote_frames_behind).unwrap_or(0) });
                     }
                     core.after_p2p_call::<P>(ni, t, pre, snap);
                     if !core.viols.is_empty() {
